@@ -96,6 +96,7 @@ type result struct {
 	Seed     int64           `json:"seed"`
 	Program  json.RawMessage `json:"program"`
 	Tape     []int           `json:"tape"`
+	TapeSeed int64           `json:"tape_seed"`
 	Viols    []violation     `json:"violations"`
 	Stats    json.RawMessage `json:"stats"`
 	HistText []string        `json:"history"`
@@ -490,7 +491,7 @@ func check(prop string, spec propSpec, tier string, seed int64, scratch string) 
 		reproduced := false
 		var lastOut string
 		for ci, cand := range cands {
-			rf := map[string]any{"property": prop, "signature": g.sig, "violation": g.viol.Text, "seed": cand.Seed, "program": cand.Program, "tape": cand.Tape, "history": cand.HistText, "tree_hash": th}
+			rf := map[string]any{"property": prop, "signature": g.sig, "violation": g.viol.Text, "seed": cand.Seed, "program": cand.Program, "tape": cand.Tape, "tape_seed": cand.TapeSeed, "history": cand.HistText, "tree_hash": th}
 			b, _ := json.MarshalIndent(rf, "", " ")
 			raw := filepath.Join(scratch, fmt.Sprintf("raw%d_%d.json", gi, ci))
 			os.WriteFile(raw, b, 0o644)
@@ -502,6 +503,13 @@ func check(prop string, spec propSpec, tier string, seed int64, scratch string) 
 			lastOut = rout
 			if !strings.Contains(rout, "REPRODUCED property="+prop) || strings.Contains(rout, "NOT-REPRODUCED") {
 				continue
+			}
+			if strings.HasPrefix(g.sig, "C05|hang|") {
+				// a run that never ends cannot be minimised by re-running variants
+				os.WriteFile(final, b, 0o644)
+				g.first = cand
+				reproduced = true
+				break
 			}
 			sb := "30s"
 			if tier == "thorough" {
